@@ -212,7 +212,7 @@ fn context_unit(unit: u64, out: &mut WorkerOut) {
     let tok = |name: &str| f.split(|ch: char| !ch.is_alphanumeric()).any(|t| t == name);
     let mut vars = vec![]; if tok("a") { vars.push(lv("a", "ga", &pk)); } if tok("b") { vars.push(lv("b", "gb", &pk)); } if tok("c") { vars.push(lv("c", "gc", &pk)); }
     let top: String = f.chars().map(|ch| match ch { 'a' => "ga".to_string(), 'b' => "gb".to_string(), 'c' => "gc".to_string(), o => o.to_string() }).collect();
-    Tpl { local: f.to_string(), top, vars, scalar_operands: !blocks, set_ok: false, tag: format!("{}:{}{}", f, kind, if blocks { ":blocks" } else { "" }) }
+    Tpl { local: f.to_string(), top, vars, scalar_operands: !blocks, set_ok: false, tag: format!("{}:{}{}", f, kind, if blocks { ":blocks" } else { "" }), fn_ok: true }
   }).collect();
   crate::ctx::judge_templates("C11", &mut s, &tpls, 0, &format!("a, b, c := 91.. (globals); ga := {}; gb := {}; gc := {}", ga, gb, gc), out);
 }
